@@ -995,7 +995,7 @@ Definition rec_n (N : Z) (rec : rec_t) : Prop := forall st a b,
   nr (rec st a b) /\ forall st', rec st a b = Ok st' -> tabs_eq st st' /\ a <= b_line st' <= b_lineMax st.
 
 Lemma r_blockquote_r N rec term (RN : rec_n N rec) (T : term_fr term) (TN : term_nr N term) st sl el silent :
-  pre2 N st sl el -> TI st ->
+  pre2 N st sl el -> (silent = false -> TI st) ->
   nr (r_blockquote cfg rec term st sl el silent)
   /\ forall b st', r_blockquote cfg rec term st sl el silent = Ok (b, st') -> tabs_eq st st'.
 Proof.
@@ -1007,7 +1007,7 @@ Proof.
   rewrite match_some_62.
   destruct (match char_at (b_src st) (b + t) with Some z => z =? 62 | None => false end) eqn:C62;
     [|split; [apply nr_ok | intros b0 st' H; injection H as <- <-; exact SAME]].
-  destruct silent; [split; [apply nr_ok | intros b0 st' H; injection H as <- <-; exact SAME]|].
+  destruct silent; [split; [apply nr_ok | intros b0 st' H; injection H as <- <-; exact SAME]|]. specialize (HTI eq_refl).
   rewrite Ebs. cbn [bind].
   (* the marker is a character of the line: the line is not empty *)
   assert (PE : b + t < e).
@@ -1310,7 +1310,7 @@ Proof.
 Qed.
 
 Lemma r_list_r N rec term (RN : rec_n N rec) (T : term_fr term) (TN : term_nr N term) st sl el silent :
-  pre2 N st sl el -> TI st -> b_line st = sl ->
+  pre2 N st sl el -> (silent = false -> TI st) -> (silent = false -> b_line st = sl) ->
   nr (r_list cfg rec term st sl el silent)
   /\ forall b st', r_list cfg rec term st sl el silent = Ok (b, st') -> tabs_eq st st'.
 Proof.
@@ -1348,7 +1348,7 @@ Proof.
   destruct (py_idx (b_src st) (pam - 1)) as [mc|ex|] eqn:MC0; cbn [bind].
   2:{ exfalso. exact (nr_py_idx (b_src st) (pam - 1) ltac:(lia) ex MC0). }
   2:{ split; [apply nr_oof | discriminate]. }
-  destruct silent; [split; [apply nr_ok | intros b0 st' H; apply (SAME b0 st'); right; exact H]|].
+  destruct silent; [split; [apply nr_ok | intros b0 st' H; apply (SAME b0 st'); right; exact H]|]. specialize (BLn eq_refl). specialize (HTI eq_refl).
   match goal with |- context [list_items _ _ _ _ (st_parent ?s1 _)] => set (st1 := s1) in * end.
   assert (TE1 : tabs_eq st (st_parent st1 nm_list)) by (unfold st1; destruct isOrd; repeat split).
   destruct (list_items_r N rec term RN T TN (S (Z.to_nat (el - sl))) (st_parent st1 nm_list) isOrd mc sl el pam (b + t) true false) as [LN LP].
@@ -1365,4 +1365,411 @@ Proof.
   destruct tight; destruct isOrd; unfold tabs_eq; cbn; repeat split; assumption.
 Qed.
 
+(* ---- every other rule leaves the tables alone ---- *)
+Ltac tabs_done := first [ apply tabs_eq_refl | repeat split ].
+
+Lemma r_hr_tabs st sl el silent b st' : r_hr cfg st sl el silent = Ok (b, st') -> tabs_eq st st'.
+Proof. unfold r_hr. intros H. repeat rstep H; try discriminate H. all: rfinish H; tabs_done. Qed.
+Lemma r_code_tabs st sl el silent b st' : r_code cfg st sl el silent = Ok (b, st') -> tabs_eq st st'.
+Proof. unfold r_code. intros H. repeat rstep H; try discriminate H. all: rfinish H; tabs_done. Qed.
+Lemma r_fence_tabs st sl el silent b st' : r_fence cfg st sl el silent = Ok (b, st') -> tabs_eq st st'.
+Proof. unfold r_fence. intros H. repeat rstep H; try discriminate H. all: rfinish H; tabs_done. Qed.
+Lemma r_heading_tabs st sl el silent b st' : r_heading cfg st sl el silent = Ok (b, st') -> tabs_eq st st'.
+Proof. unfold r_heading. intros H. repeat rstep H; try discriminate H. all: rfinish H; tabs_done. Qed.
+Lemma r_html_block_tabs st sl el silent b st' : r_html_block cfg st sl el silent = Ok (b, st') -> tabs_eq st st'.
+Proof.
+  unfold r_html_block. intros H.
+  do 3 rstep H. rstep H; [rfinish H; tabs_done|]. rstep H; [rfinish H; tabs_done|]. rstep H; [rfinish H; tabs_done|].
+  rstep H. rstep H; [rfinish H; tabs_done|]. rstep H; [|rfinish H; tabs_done]. destruct p as [[opener closer] can].
+  rstep H; [rfinish H; tabs_done|]. do 2 rstep H. rfinish H. tabs_done.
+Qed.
+
+Lemma r_paragraph_tabs term (T : term_fr term) st sl el silent b st' : r_paragraph term st sl el silent = Ok (b, st') -> tabs_eq st st'.
+Proof.
+  unfold r_paragraph. intros H.
+  match type of H with bind ?m _ = _ => destruct m as [[[nl u] st1]|?|] eqn:PS end; cbn [bind] in H; try discriminate H.
+  apply (para_scan_fr term T nm_paragraph ltac:(discriminate)) in PS. apply fr_tabs_eq in PS.
+  rstep H. rfinish H. eapply tabs_eq_trans; [|exact (tabs_eq_trans _ _ _ PS ltac:(repeat split))]. repeat split.
+Qed.
+Lemma r_lheading_tabs term (T : term_fr term) st sl el silent b st' : r_lheading cfg term st sl el silent = Ok (b, st') -> tabs_eq st st'.
+Proof.
+  unfold r_lheading. intros H. rstep H. rstep H; [rfinish H; tabs_done|].
+  match type of H with bind ?m _ = _ => destruct m as [[[nl u] st1]|?|] eqn:PS end; cbn [bind] in H; try discriminate H.
+  apply (para_scan_fr term T nm_paragraph ltac:(discriminate)) in PS. apply fr_tabs_eq in PS.
+  assert (P0 : tabs_eq st st1) by (eapply tabs_eq_trans; [|exact PS]; repeat split).
+  destruct u as [[marker level]|]; [|rfinish H; exact P0].
+  rstep H. rfinish H. eapply tabs_eq_trans; [exact P0|]. repeat split.
+Qed.
+Lemma r_reference_tabs term (T : term_fr term) st sl el silent b st' : r_reference cfg rf cf term st sl el silent = Ok (b, st') -> tabs_eq st st'.
+Proof.
+  intros H. pose proof (r_reference_c cfg rf cf term T _ _ _ _ _ _ H) as C. unfold rule_c in C.
+  destruct (b && negb silent) eqn:E; [|exact (fr_tabs_eq _ _ C)].
+  (* success: replay the rule to see that only tokens, env, line and parentType change *)
+  unfold r_reference in H.
+  do 3 rstep H. rstep H; [rfinish H; discriminate E|]. rstep H. rstep H; [rfinish H; discriminate E|].
+  rstep H. rstep H; [rfinish H; discriminate E|].
+  match type of H with bind ?m _ = _ => destruct m as [[[nl u] st1]|?|] eqn:PS end; cbn [bind] in H; try discriminate H.
+  apply (para_scan_fr term T nm_reference ltac:(discriminate)) in PS. apply fr_tabs_eq in PS.
+  assert (P0 : tabs_eq st st1) by (eapply tabs_eq_trans; [|exact PS]; repeat split).
+  rstep H. cbv zeta in H.
+  repeat first
+    [ match type of H with Ok _ = Ok _ => idtac end; fail 1
+    | match type of H with context [ref_label ?a ?b0 ?c ?d ?e] => destruct (ref_label a b0 c d e) as [[[?|] ?]|] end
+    | match type of H with context [skip_ws_nl ?a ?b0 ?c ?d ?e] => destruct (skip_ws_nl a b0 c d e) end
+    | match type of H with context [if ?c then _ else _] => destruct c end
+    | progress cbv beta iota in H ].
+  all: rfinish H; try exact P0; try discriminate E.
+  all: eapply tabs_eq_trans; [exact P0|]; destruct (c_inline_defs cfg); repeat split.
+Qed.
+
+Lemma table_rows_tabs term (T : term_fr term) : forall fuel st aligns sl nl el tbody r tb' st',
+  table_rows cfg fuel term st aligns sl nl el tbody = Ok (r, tb', st') -> tabs_eq st st'.
+Proof.
+  induction fuel as [|f IH]; intros st aligns sl nl el tbody r tb' st' H; [discriminate H|]. cbn [table_rows] in H.
+  destruct (negb (nl <? el)); [rfinish H; tabs_done|].
+  rstep H. rstep H; [rfinish H; tabs_done|].
+  destruct (term nm_blockquote st nl el) as [[tt st1]|?|] eqn:TE; cbn [bind] in H; try discriminate H.
+  pose proof (fr_tabs_eq _ _ (T nm_blockquote _ _ _ _ _ ltac:(discriminate) TE)) as F.
+  destruct tt; [rfinish H; exact F|].
+  rstep H. destruct (py_strip x0) as [|c0 lt]; [rfinish H; exact F|].
+  rstep H. rstep H; [rfinish H; exact F|].
+  destruct (nl =? sl + 2); cbv beta iota in H; apply IH in H; (eapply tabs_eq_trans; [exact F|]); (eapply tabs_eq_trans; [|exact H]).
+  all: repeat (eapply tabs_eq_trans; [|apply tabs_eq_bpush]); (eapply tabs_eq_trans; [|apply push_cells_tabs]); repeat (eapply tabs_eq_trans; [|apply tabs_eq_bpush]); repeat split.
+Qed.
+
+Lemma r_table_tabs term (T : term_fr term) st sl el silent b st' : r_table cfg term st sl el silent = Ok (b, st') -> tabs_eq st st'.
+Proof.
+  intros H. pose proof (r_table_c cfg term T _ _ _ _ _ _ H) as C. unfold rule_c in C.
+  destruct (b && negb silent) eqn:E; [|exact (fr_tabs_eq _ _ C)].
+  unfold r_table in H. destruct (el <? sl + 2); [rfinish H; discriminate E|]. cbv zeta in H.
+  repeat first
+    [ match type of H with bind (table_rows _ _ _ _ _ _ _ _ _) _ = _ => fail 2 end
+    | match type of H with (match ?o with Some _ => _ | None => _ end) = _ => destruct o
+      | (if ?c then _ else _) = _ => destruct c
+      | bind ?m _ = _ => let x := fresh "x" in destruct m as [x|?|]; cbn [bind] in H; [|discriminate H|discriminate H]
+      end ].
+  all: try (rfinish H; discriminate E).
+  match type of H with bind ?m _ = _ => destruct m as [[[nl tbody] st7]|?|] eqn:TR end; cbn [bind] in H; try discriminate H.
+  apply (table_rows_tabs term T) in TR. rfinish H.
+  destruct tbody as [bi|].
+  all: eapply tabs_eq_trans; [|repeat split].
+  all: eapply tabs_eq_trans; [|exact TR].
+  all: repeat (eapply tabs_eq_trans; [|apply tabs_eq_bpush]); (eapply tabs_eq_trans; [|apply push_cells_tabs]); repeat (eapply tabs_eq_trans; [|apply tabs_eq_bpush]); repeat split.
+Qed.
+
 End Rules.
+
+(* ---- dispatch, terminator chains, the rule loop, the line loop ---- *)
+Section Loop.
+Context (cfg : bcfg) (rf cf : str -> str).
+
+(* terminator chains: silent-capable rules, and not the reference rule (it reads the first character
+   of the line unguarded; the Ruler never puts it into a chain: it has no alt entry) *)
+Definition term_names_ok : Prop :=
+  forall ch n, ch <> [] -> In n (c_term cfg ch) -> silent_capable n /\ str_eqb n nm_reference = false.
+
+Lemma term_names_silent : term_names_ok -> silent_terms cfg.
+Proof. intros H ch n CN I. exact (proj1 (H ch n CN I)). Qed.
+
+Lemma apply_rule_r N rec term (RN : rec_n N rec) (T : term_fr term) (TN : term_nr N term) (HO : c_html cfg = false)
+      n st sl el silent :
+  pre2 N st sl el -> (silent = false -> TI st) -> (silent = false -> b_line st = sl) ->
+  (silent = true -> silent_capable n /\ str_eqb n nm_reference = false) -> (silent = false -> nonempty st sl) ->
+  nr (apply_rule cfg rf cf rec term n st sl el silent)
+  /\ forall b st', apply_rule cfg rf cf rec term n st sl el silent = Ok (b, st') -> tabs_eq st st'.
+Proof.
+  intros P HT BL SC NE. unfold apply_rule.
+  destruct (str_eqb n nm_table); [split; [apply (r_table_nr cfg N); assumption | intros b st'; apply r_table_tabs; assumption]|].
+  destruct (str_eqb n nm_code) eqn:N2; [split; [apply (r_code_nr cfg N); assumption | intros b st'; apply r_code_tabs]|].
+  destruct (str_eqb n nm_fence); [split; [apply (r_fence_nr cfg N); assumption | intros b st'; apply r_fence_tabs]|].
+  destruct (str_eqb n nm_blockquote); [apply (r_blockquote_r cfg N); assumption|].
+  destruct (str_eqb n nm_hr); [split; [apply (r_hr_nr cfg N); assumption | intros b st'; apply r_hr_tabs]|].
+  destruct (str_eqb n nm_list); [apply (r_list_r cfg N); assumption|].
+  destruct (str_eqb n nm_reference) eqn:N7.
+  { destruct silent; [destruct (SC eq_refl) as [_ X]; congruence|].
+    split; [apply (r_reference_nr cfg rf cf N); try assumption; apply NE; reflexivity | intros b st'; apply r_reference_tabs; assumption]. }
+  destruct (str_eqb n nm_html_block); [split; [apply (r_html_block_nr cfg N); assumption | intros b st'; apply r_html_block_tabs]|].
+  destruct (str_eqb n nm_heading); [split; [apply (r_heading_nr cfg N); assumption | intros b st'; apply r_heading_tabs]|].
+  destruct (str_eqb n nm_lheading); [split; [apply (r_lheading_nr cfg N); assumption | intros b st'; apply r_lheading_tabs; assumption]|].
+  destruct (str_eqb n nm_paragraph); [split; [apply (r_paragraph_nr N); assumption | intros b st'; apply r_paragraph_tabs; assumption]|].
+  split; [apply nr_ok | intros b st' H; injection H as <- <-; apply tabs_eq_refl].
+Qed.
+
+Lemma no_rec_n N : rec_n N no_rec.
+Proof. intros st a b _ _ _ _ _. split; [apply nr_oof | discriminate]. Qed.
+Lemma no_term_nr N : term_nr N no_term.
+Proof. intros ch st a b _ _. apply nr_oof. Qed.
+
+Lemma pre2_tabs N st st' a b : tabs_eq st st' -> pre2 N st a b -> pre2 N st' a b.
+Proof.
+  intros TE (R & A & B & C). split; [exact (tabs_eq_RI _ _ _ TE R)|]. split; [exact A|]. split; [exact B|].
+  rewrite (tabs_eq_lineMax _ _ TE). exact C.
+Qed.
+
+(* a silent chain *)
+Lemma run_chain_nr N (HO : c_html cfg = false) : forall names st l el,
+  (forall n, In n names -> silent_capable n /\ str_eqb n nm_reference = false) ->
+  pre2 N st l el -> nr (run_chain cfg rf cf names st l el).
+Proof.
+  induction names as [|n names IH]; intros st l el SC P; cbn [run_chain]; [apply nr_ok|].
+  destruct (apply_rule_r N no_rec no_term (no_rec_n N) no_term_fr (no_term_nr N) HO n st l el true P
+              ltac:(discriminate) ltac:(discriminate) (fun _ => SC n (or_introl eq_refl)) ltac:(discriminate)) as [A B].
+  apply nr_bind; [exact A|]. intros [r s1] E. specialize (B r s1 E).
+  destruct r; [apply nr_ok|]. apply IH; [intros m Hm; apply SC; right; exact Hm | exact (pre2_tabs _ _ _ _ _ B P)].
+Qed.
+
+Lemma terminated_nr N (HO : c_html cfg = false) (TNO : term_names_ok) : term_nr N (terminated cfg rf cf).
+Proof.
+  intros ch st a b CN P. unfold terminated. apply (run_chain_nr N HO); [|exact P].
+  intros n Hn. exact (TNO ch n CN Hn).
+Qed.
+
+Lemma nonempty_tabs st st' l : tabs_eq st st' -> nonempty st l -> nonempty st' l.
+Proof. intros (_ & A2 & A3 & A4 & _) H b e t. rewrite A2, A3, A4. apply H. Qed.
+
+Lemma try_rules_r N rec (RN : rec_n N rec) (RC : rec_c rec) (HO : c_html cfg = false) (TNO : term_names_ok) :
+  forall names st sl el, pre2 N st sl el -> TI st -> b_line st = sl -> nonempty st sl ->
+  nr (try_rules cfg rf cf rec names st sl el)
+  /\ forall st', try_rules cfg rf cf rec names st sl el = Ok st' -> tabs_eq st st'.
+Proof.
+  induction names as [|n names IH]; intros st sl el P HT BL NE; cbn [try_rules].
+  { split; [apply nr_ok | intros st' H; injection H as <-; apply tabs_eq_refl]. }
+  destruct (apply_rule_r N rec (terminated cfg rf cf) RN (terminated_fr cfg rf cf (term_names_silent TNO)) (terminated_nr N HO TNO) HO
+              n st sl el false P (fun _ => HT) (fun _ => BL) ltac:(discriminate) (fun _ => NE)) as [A B].
+  destruct (apply_rule cfg rf cf rec (terminated cfg rf cf) n st sl el false) as [[r s1]|ex|] eqn:AR; cbn [bind].
+  2:{ exfalso. exact (A ex eq_refl). }
+  2:{ split; [apply nr_oof | discriminate]. }
+  specialize (B r s1 eq_refl).
+  destruct r; [split; [apply nr_ok | intros st' H; injection H as <-; exact B]|].
+  destruct (apply_rule_c cfg rf cf rec _ RC (terminated_fr cfg rf cf (term_names_silent TNO)) _ _ _ _ _ _ _ AR ltac:(discriminate)) as [C _].
+  unfold rule_c in C. cbn [andb] in C.
+  destruct (IH s1 sl el (pre2_tabs _ _ _ _ _ B P) (tabs_eq_TI _ _ B HT) ltac:(rewrite (fr_line _ _ C); exact BL) (nonempty_tabs _ _ _ B NE)) as [A2 B2].
+  split; [exact A2|]. intros st' H. exact (tabs_eq_trans _ _ _ B (B2 st' H)).
+Qed.
+
+Lemma skip_empty_nonempty : forall fuel st a, (Z.to_nat (b_lineMax st - a) < fuel)%nat ->
+  skip_empty_lines fuel st a < b_lineMax st -> is_empty st (skip_empty_lines fuel st a) = Ok false.
+Proof.
+  induction fuel as [|f IH]; intros st a HF HL; [lia|]. cbn [skip_empty_lines] in *.
+  destruct (negb (a <? b_lineMax st)) eqn:E; [lia|].
+  destruct (is_empty st a) as [[|]|?|] eqn:IE; try (apply IH; [lia | exact HL]). exact IE.
+Qed.
+
+Lemma is_empty_false_nonempty st l : is_empty st l = Ok false -> nonempty st l.
+Proof.
+  unfold is_empty, line_start, nonempty. intros H b e t Eb Ee Et. rewrite Eb, Et in H. cbn [bind] in H. rewrite Ee in H. cbn [bind] in H.
+  injection H as H. lia.
+Qed.
+
+Lemma tok_loop_r N rec (RN : rec_n N rec) (RC : rec_c rec) (HO : c_html cfg = false) (TNO : term_names_ok)
+      (PA : mem_str nm_paragraph (c_rules cfg) = true) :
+  forall fuel st line el hel,
+  RI N st -> TI st -> 0 <= line -> line <= b_lineMax st -> el <= b_lineMax st -> (line < el \/ b_line st = line) ->
+  nr (tok_loop cfg rf cf fuel rec st line el hel)
+  /\ forall st', tok_loop cfg rf cf fuel rec st line el hel = Ok st' -> tabs_eq st st'.
+Proof.
+  induction fuel as [|f IH]; intros st line el hel R HT L0 L1 L2 LB; [split; [apply nr_oof | discriminate]|].
+  cbn [tok_loop].
+  assert (LMN : b_lineMax st <= N) by (destruct R as [LM _]; lia).
+  destruct (negb (line <? el)) eqn:NE; [split; [apply nr_ok | intros st' H; injection H as <-; apply tabs_eq_refl]|].
+  cbv zeta.
+  set (line1 := skip_empty_lines (S (Z.to_nat (b_lineMax st))) st line) in *.
+  destruct (skip_empty_spec (S (Z.to_nat (b_lineMax st))) st line) as [E1 E2]. specialize (E2 L1). fold line1 in E1, E2.
+  assert (T1 : tabs_eq st (st_line st line1)) by repeat split.
+  destruct (el <=? line1) eqn:EL; [split; [apply nr_ok | intros st' H; injection H as <-; exact T1]|].
+  change (b_sCount (st_line st line1)) with (b_sCount st).
+  destruct (RI_reads N st line1 R ltac:(lia)) as (b & e & t & sc & bs & Eb & Ee & Et & Es & Ebs & _).
+  rewrite Es. cbn [bind].
+  change (b_blkIndent (st_line st line1)) with (b_blkIndent st).
+  destruct (sc <? b_blkIndent st); [split; [apply nr_ok | intros st' H; injection H as <-; exact T1]|].
+  destruct (c_maxNesting cfg <=? b_level (st_line st line1)); [split; [apply nr_ok | intros st' H; injection H as <-; repeat split]|].
+  assert (NEl : nonempty (st_line st line1) line1).
+  { apply (nonempty_tabs st); [exact T1|]. apply is_empty_false_nonempty. unfold line1. apply skip_empty_nonempty; [lia|]. fold line1. lia. }
+  assert (P1 : pre2 N (st_line st line1) line1 el).
+  { split; [exact (tabs_eq_RI _ _ _ T1 R)|]. change (b_lineMax (st_line st line1)) with (b_lineMax st). lia. }
+  destruct (try_rules_r N rec RN RC HO TNO (c_rules cfg) (st_line st line1) line1 el P1 HT eq_refl NEl) as [TN0 TP0].
+  destruct (try_rules cfg rf cf rec (c_rules cfg) (st_line st line1) line1 el) as [st2|ex|] eqn:TR; cbn [bind].
+  2:{ exfalso. exact (TN0 ex eq_refl). }
+  2:{ split; [apply nr_oof | discriminate]. }
+  specialize (TP0 st2 eq_refl).
+  pose proof TR as TR'. apply (try_rules_m cfg rf cf rec RC (term_names_silent TNO)) in TR'; [| |exact PA].
+  2:{ split; [lia|]. split; [lia|]. split; [exact L2|]. split; [reflexivity | exact HT]. }
+  destruct TR' as (A1 & A2 & A3 & A4 & A5). cbn [b_lineMax st_line set] in A1, A2.
+  set (st3 := st2 <| b_tight := negb hel |>) in *.
+  change (b_line st3) with (b_line st2).
+  assert (T3 : tabs_eq st st3) by (eapply tabs_eq_trans; [exact T1|]; eapply tabs_eq_trans; [exact TP0|]; repeat split).
+  pose proof (tabs_eq_RI _ _ _ T3 R) as R3. pose proof (tabs_eq_TI _ _ T3 HT) as HT3.
+  match goal with |- nr (bind ?m _) /\ _ => assert (N1 : nr m) end.
+  { destruct (b_line st2 - 1 <? el); [apply (is_empty_nr N); [exact R3 | lia] | apply nr_ok]. }
+  match goal with |- nr (bind ?m _) /\ _ => destruct m as [e1|ex|] eqn:E1'; cbn [bind] end.
+  2:{ exfalso. exact (N1 ex eq_refl). }
+  2:{ split; [apply nr_oof | discriminate]. }
+  match goal with |- nr (bind ?m _) /\ _ => assert (N2 : nr m) end.
+  { destruct (b_line st2 <? el) eqn:X; [apply (is_empty_nr N); [exact R3 | lia] | apply nr_ok]. }
+  match goal with |- nr (bind ?m _) /\ _ => destruct m as [e2|ex|] eqn:E2'; cbn [bind] end.
+  2:{ exfalso. exact (N2 ex eq_refl). }
+  2:{ split; [apply nr_oof | discriminate]. }
+  destruct e2.
+  - assert (LT2 : b_line st2 < el) by (destruct (b_line st2 <? el) eqn:X; [lia | discriminate E2']).
+    assert (T4 : tabs_eq st (st_line st3 (b_line st2 + 1))) by (eapply tabs_eq_trans; [exact T3|]; repeat split).
+    destruct (IH (st_line st3 (b_line st2 + 1)) (b_line st2 + 1) el true (tabs_eq_RI _ _ _ T4 R) (tabs_eq_TI _ _ T4 HT) ltac:(lia)) as [A B].
+    { rewrite (tabs_eq_lineMax _ _ T4). lia. } { rewrite (tabs_eq_lineMax _ _ T4). lia. } { right. reflexivity. }
+    split; [exact A|]. intros st' H. exact (tabs_eq_trans _ _ _ T4 (B st' H)).
+  - destruct (IH st3 (b_line st2) el (hel || e1) R3 HT3 ltac:(lia)) as [A B].
+    { rewrite (tabs_eq_lineMax _ _ T3). lia. } { rewrite (tabs_eq_lineMax _ _ T3). lia. } { right. reflexivity. }
+    split; [exact A|]. intros st' H. exact (tabs_eq_trans _ _ _ T3 (B st' H)).
+Qed.
+
+Lemma tokenize_rec_n N (HO : c_html cfg = false) (TNO : term_names_ok) (PA : mem_str nm_paragraph (c_rules cfg) = true) :
+  forall d, rec_n N (tokenize cfg rf cf d).
+Proof.
+  induction d as [|d IH]; intros st a b R HT A0 AB BL; [split; [apply nr_oof | discriminate]|].
+  cbn [tokenize].
+  pose proof (tokenize_rec_c cfg rf cf (term_names_silent TNO) PA d) as RC.
+  destruct (tok_loop_r N _ IH RC HO TNO PA (S (S (Z.to_nat (b - a)))) st a b false R HT A0 ltac:(lia) BL ltac:(lia)) as [A B].
+  split; [exact A|]. intros st' H. split; [exact (B st' H)|].
+  destruct (tokenize_rec_c cfg rf cf (term_names_silent TNO) PA (S d) st a b st' H A0 AB BL HT) as (_ & C2 & _). exact C2.
+Qed.
+
+End Loop.
+
+(* ---- the tables of a fresh StateBlock satisfy RI ---- *)
+Definition P4 (src : str) (b e t : Z) : Prop :=
+  0 <= b /\ (0 <= t /\ b + t <= e) /\ 0 <= e <= len src
+  /\ (e < len src -> py_idx src e = Ok 10)
+  /\ (b + t < e -> exists c, py_idx src (b + t) = Ok c /\ is_space c = false).
+
+Definition rowsJ (src : str) (pos : Z) (bM eM tS : list Z) : Prop :=
+  length eM = length bM /\ length tS = length bM
+  /\ forall i b e t, nth_error (rev bM) i = Some b -> nth_error (rev eM) i = Some e -> nth_error (rev tS) i = Some t ->
+       P4 src b e t /\ (e < len src \/ (pos = len src /\ i = (length bM - 1)%nat)).
+
+Lemma rowsJ_cons src pos pos' bM eM tS b e t : rowsJ src pos bM eM tS -> pos < len src -> P4 src b e t -> (e < len src \/ pos' = len src) ->
+  rowsJ src pos' (b :: bM) (e :: eM) (t :: tS).
+Proof.
+  intros (L1 & L2 & H) Hp P Q. split; [cbn [length]; lia|]. split; [cbn [length]; lia|].
+  intros i b' e' t' Hb He Ht. cbn [rev] in Hb, He, Ht.
+  apply nth_error_snoc in Hb. apply nth_error_snoc in He. apply nth_error_snoc in Ht. rewrite !rev_length in *.
+  destruct Hb as [[Lb Hb]|[Lb ->]]; destruct He as [[Le He]|[Le ->]]; destruct Ht as [[Lt Ht]|[Lt ->]]; try lia.
+  - destruct (H i b' e' t' Hb He Ht) as [A [B|[B _]]]; [split; [exact A | left; exact B] | lia].
+  - split; [exact P|]. destruct Q as [Q|Q]; [left; exact Q | right; split; [exact Q | cbn [length]; lia]].
+Qed.
+
+Lemma rowsJ_pos src pos pos' bM eM tS : rowsJ src pos bM eM tS -> pos < len src -> rowsJ src pos' bM eM tS.
+Proof.
+  intros (L1 & L2 & H) Hp. split; [exact L1|]. split; [exact L2|]. intros i b e t Hb He Ht.
+  destruct (H i b e t Hb He Ht) as [A [B|[B _]]]; [split; [exact A | left; exact B] | lia].
+Qed.
+
+Definition scanJ (full : str) (r : scan) (pos : Z) : Prop :=
+  rowsJ full pos (sc_bM r) (sc_eM r) (sc_tS r) /\ 0 <= sc_start r /\ 0 <= sc_indent r
+  /\ (pos < len full -> sc_start r + sc_indent r <= pos
+        /\ (sc_found r = false -> sc_start r + sc_indent r = pos)
+        /\ (sc_found r = true -> sc_start r + sc_indent r < pos
+                                 /\ exists c, py_idx full (sc_start r + sc_indent r) = Ok c /\ is_space c = false)).
+
+Lemma scan_step_J full r pos c : scanJ full r pos -> 0 <= pos -> py_idx full pos = Ok c ->
+  scanJ full (scan_step (len full) r pos c) (pos + 1).
+Proof.
+  intros (R & S0 & I0 & F) Hp Ec. destruct (py_idx_get _ _ _ Hp Ec) as [_ PL]. destruct (F PL) as (F1 & F2 & F3).
+  unfold scan_step.
+  destruct (negb (sc_found r) && is_space c) eqn:E.
+  - assert (Sp : is_space c = true) by (destruct (is_space c); [reflexivity | rewrite Bool.andb_false_r in E; discriminate E]).
+    assert (Fd : sc_found r = false) by (destruct (sc_found r); [discriminate E | reflexivity]).
+    split; [exact (rowsJ_pos _ _ _ _ _ _ R PL)|]. cbn [sc_start sc_indent sc_found]. split; [exact S0|]. split; [lia|].
+    intros _. specialize (F2 Fd). split; [lia|]. split; [intros _; lia | discriminate].
+  - destruct ((c =? 10) || (pos =? len full - 1)) eqn:E2.
+    + cbv zeta. unfold scanJ. cbn [sc_bM sc_eM sc_tS sc_start sc_indent sc_found]. split.
+      * apply (rowsJ_cons full pos); [exact R | exact PL| |destruct (c =? 10) eqn:X; [left; lia | right; lia]].
+        unfold P4. split; [exact S0|]. split; [destruct (c =? 10); lia|]. split; [destruct (c =? 10); lia|]. split.
+        -- intros Hlt. destruct (c =? 10) eqn:X; [assert (c = 10) by lia; subst c; exact Ec | lia].
+        -- intros Hlt. destruct (sc_found r) eqn:Fd; [exact (proj2 (F3 eq_refl))|].
+           specialize (F2 eq_refl). destruct (c =? 10) eqn:X; [lia|].
+           assert (Sp : is_space c = false) by (cbn in E; exact E).
+           exists c. rewrite F2. split; [exact Ec | exact Sp].
+      * split; [destruct (c =? 10); lia|]. split; [lia|]. intros HL.
+        assert (CX : (c =? 10) = true) by (destruct (c =? 10) eqn:X; [reflexivity | lia]). rewrite CX.
+        split; [lia|]. split; [intros _; lia | discriminate].
+    + assert (c <> 10) by lia.
+      split; [exact (rowsJ_pos _ _ _ _ _ _ R PL)|]. cbn [sc_start sc_indent sc_found]. split; [exact S0|]. split; [exact I0|].
+      intros _. split; [lia|]. split; [discriminate|]. intros _.
+      destruct (sc_found r) eqn:Fd; [destruct (F3 eq_refl) as [A B]; split; [lia | exact B]|].
+      specialize (F2 eq_refl). split; [lia|]. exists c. rewrite F2. split; [exact Ec|]. cbn in E. exact E.
+Qed.
+
+Lemma scan_loop_J full : forall rest done r, full = done ++ rest -> scanJ full r (len done) ->
+  scanJ full (scan_loop (len full) r (len done) rest) (len full).
+Proof.
+  induction rest as [|c rest IH]; intros done r E H; cbn [scan_loop].
+  - rewrite E, app_nil_r. rewrite E, app_nil_r in H. exact H.
+  - replace (len done + 1) with (len (done ++ [c])) by (rewrite len_app; unfold len; cbn; lia).
+    apply IH; [rewrite <- app_assoc; exact E|].
+    replace (len (done ++ [c])) with (len done + 1) by (rewrite len_app; unfold len; cbn; lia).
+    apply scan_step_J; [exact H | apply len_nonneg|]. rewrite E. apply py_idx_app.
+Qed.
+
+Theorem state_init_RI src env toks : RI (b_lineMax (state_init src env toks)) (state_init src env toks).
+Proof.
+  destruct (state_init_tables src env toks) as (T1 & T2 & T3 & T4 & T5 & LM & _). cbv zeta in *.
+  unfold RI. split; [lia|]. repeat (split; [assumption|]).
+  unfold state_init in *. cbv zeta in *. cbn [b_src b_bMarks b_eMarks b_tShift b_lineMax] in *.
+  set (r := scan_loop (len src) (mkScan [] [] [] [] false 0 0 0) 0 src) in *.
+  assert (HI : scanJ src r (len src)).
+  { unfold r. apply (scan_loop_J src src [] _ eq_refl). unfold scanJ. cbn.
+    split; [split; [reflexivity|]; split; [reflexivity|]; intros i b e t Hb; destruct i; discriminate Hb|].
+    split; [lia|]. split; [lia|]. intros _. split; [lia|]. split; [intros _; lia | discriminate]. }
+  destruct HI as ((L1 & L2 & H) & S0 & I0 & _). pose proof (len_nonneg src) as Ln.
+  set (N := len (rev (len src :: sc_bM r)) - 1) in *.
+  assert (NK : N = Z.of_nat (length (sc_bM r))) by (unfold N, len; rewrite rev_length; cbn [length]; lia).
+  intros l b e t Hl Eb Ee Et. rewrite tb_nonneg in Eb, Ee, Et by lia.
+  destruct (nth_error (rev (len src :: sc_bM r)) (Z.to_nat l)) eqn:X1; [|discriminate Eb].
+  destruct (nth_error (rev (len src :: sc_eM r)) (Z.to_nat l)) eqn:X2; [|discriminate Ee].
+  destruct (nth_error (rev (0 :: sc_tS r)) (Z.to_nat l)) eqn:X3; [|discriminate Et].
+  injection Eb as <-. injection Ee as <-. injection Et as <-.
+  cbn [rev] in X1, X2, X3. apply nth_error_snoc in X1. apply nth_error_snoc in X2. apply nth_error_snoc in X3. rewrite !rev_length in *.
+  destruct X1 as [[A1 X1]|[A1 ->]]; destruct X2 as [[A2 X2]|[A2 ->]]; destruct X3 as [[A3 X3]|[A3 ->]]; try lia.
+  - destruct (H _ _ _ _ X1 X2 X3) as ((P0 & P1 & P2 & P3 & P5) & Q).
+    unfold row_ok. split; [exact P0|]. split; [exact P1|]. split; [exact P2|]. split; [|split; [exact P3 | exact P5]].
+    intros HL. destruct Q as [Q|[_ Q]]; [exact Q | lia].
+  - (* the sentinel row *)
+    unfold row_ok. repeat split; try lia; intros; lia.
+Qed.
+
+(* ---- ParserBlock.parse never raises ---- *)
+Theorem block_parse_no_raise cfg rf cf src env toks :
+  c_html cfg = false -> term_names_ok cfg -> mem_str nm_paragraph (c_rules cfg) = true ->
+  nr (block_parse cfg rf cf src env toks).
+Proof.
+  intros HO TNO PA. unfold block_parse.
+  destruct src as [|c src0]; [apply nr_ok|].
+  set (st0 := state_init (c :: src0) env toks).
+  pose proof (state_init_RI (c :: src0) env toks) as R. pose proof (state_init_TI (c :: src0) env toks) as HT. fold st0 in R, HT.
+  assert (B0 : b_line st0 = 0) by reflexivity. rewrite B0.
+  destruct (Z.eq_dec (b_lineMax st0) 0) as [Z0|NZ].
+  - rewrite Z0. cbn [tokenize Z.to_nat Z.sub tok_loop]. change (negb (0 <? 0)) with true. cbv iota. apply nr_ok.
+  - assert (LM : 0 <= b_lineMax st0) by (destruct R as [LM _]; lia).
+    destruct (tokenize_rec_n cfg rf cf (b_lineMax st0) HO TNO PA (S (S (Z.to_nat (c_maxNesting cfg)))) st0 0 (b_lineMax st0) R HT ltac:(lia) ltac:(lia) ltac:(lia)) as [A _].
+    exact A.
+Qed.
+
+(* the terminator hypothesis for Ruler-compiled configurations *)
+From MD Require Import Model.Ruler.
+Definition no_silent_or_ref (n : str) : bool := no_silent_mode n || str_eqb n nm_reference.
+Definition alts_ok2 (rs : list (@rule str)) : bool :=
+  forallb (fun r => if no_silent_or_ref (rfn r) then match ralt r with [] => true | _ => false end else true) rs.
+
+Theorem ruler_cfg_term_names_ok (rs : list (@rule str)) code mn html defs :
+  alts_ok2 rs = true -> term_names_ok (mkBCfg (compile_chain rs []) (compile_chain rs) code mn html defs).
+Proof.
+  intros A ch n CN H. cbn [c_term] in H. unfold compile_chain in H. apply in_map_iff in H.
+  destruct H as (r & <- & I). apply filter_In in I. destruct I as [I C].
+  apply Bool.andb_true_iff in C. destruct C as [_ C].
+  unfold alts_ok2 in A. rewrite forallb_forall in A. specialize (A r I).
+  unfold in_chain in C. destruct ch as [|c0 ch]; [contradiction CN; reflexivity|].
+  unfold silent_capable. unfold no_silent_or_ref, no_silent_mode in A.
+  destruct (str_eqb (rfn r) nm_code); [destruct (ralt r); [discriminate C | discriminate A]|].
+  destruct (str_eqb (rfn r) nm_lheading); [destruct (ralt r); [discriminate C | discriminate A]|].
+  destruct (str_eqb (rfn r) nm_paragraph); [destruct (ralt r); [discriminate C | discriminate A]|].
+  destruct (str_eqb (rfn r) nm_reference); [destruct (ralt r); [discriminate C | discriminate A]|].
+  repeat split.
+Qed.
